@@ -277,6 +277,18 @@ func (r *Run) panicSitesIn(f *ssa.Function, nilableParams map[*ssa.Parameter]boo
 				return "decoded field " + st.Field(fl.Field).Name(), true
 			}
 		}
+		// a pointer value looked up in a map: absent keys and JSON null both give nil
+		lv := v0
+		if ex, ok := lv.(*ssa.Extract); ok && ex.Index == 0 {
+			lv = ex.Tuple
+		}
+		if lk, ok := lv.(*ssa.Lookup); ok {
+			if mt, isMap := lk.X.Type().Underlying().(*types.Map); isMap {
+				if _, isPtr := mt.Elem().Underlying().(*types.Pointer); isPtr {
+					return "pointer stored in a decoded map (nil for JSON null)", true
+				}
+			}
+		}
 		return "", false
 	}
 	// aliasOfNilable: a pointer field whose value is known (by a result-field
